@@ -488,7 +488,7 @@ func restoreExplore(ctx *report.Ctx, partName string, scripts []*yc.Program, hs 
 }
 
 func runC07(ctx *report.Ctx) {
-	b := report.Pick(ctx, c07Bounds{pre: 4, mid: 2, recv: 3, cont: 3}, c07Bounds{pre: 7, mid: 3, recv: 5, cont: 5})
+	b := report.Pick(ctx, c07Bounds{pre: 4, mid: 1, recv: 3, cont: 3}, c07Bounds{pre: 7, mid: 3, recv: 5, cont: 5})
 	ctx.Bound("steps_before_save / continuation_of_original / receiver_steps / continuation_after_restore", fmt.Sprintf("%d / %d / %d / %d", b.pre, b.mid, b.recv, b.cont))
 	// the family on a storer that is empty at creation: the first checkpoint holds no variable at all
 	noVars := &yc.HostSpec{Cmds: c07Host.Cmds}
